@@ -1625,18 +1625,21 @@ func (s *c19LimitStorage) Retrieve(id atree.SlabID) (atree.Slab, bool, error) {
 }
 
 // c19PostDecode returns "" or an event name (post_decode_panic / post_decode_hang / ...).
-func c19PostDecode(reg c19Reg, data []byte) string {
-	done := make(chan string, 1)
+func c19PostDecode(reg c19Reg, data []byte) (string, string) {
+	type evMsg struct{ ev, msg string }
+	done := make(chan evMsg, 1)
 	go func() {
 		ev := ""
+		msg := ""
 		defer func() {
 			if r := recover(); r != nil {
 				ev = "post_decode_panic"
-				if fmt.Sprint(r) == "c19: retrieve limit" {
+				msg = fmt.Sprint(r)
+				if msg == "c19: retrieve limit" {
 					ev = "post_decode_cycle"
 				}
 			}
-			done <- ev
+			done <- evMsg{ev, msg}
 		}()
 		st := &c19LimitStorage{PersistentSlabStorage: atree.NewPersistentSlabStorage(&c19Overlay{under: reg.segs, id: reg.id, data: data}, encMode, decMode, decodeStorableSafe, c19DecodeTypeInfo)}
 		slab, found, err := st.Retrieve(reg.id)
@@ -1680,10 +1683,10 @@ func c19PostDecode(reg c19Reg, data []byte) string {
 		}
 	}()
 	select {
-	case ev := <-done:
-		return ev
+	case e := <-done:
+		return e.ev, e.msg
 	case <-time.After(2 * time.Second):
-		return "post_decode_hang"
+		return "post_decode_hang", ""
 	}
 }
 
@@ -1841,12 +1844,12 @@ func (r *c19Runner) process(st *c19Stats, slot *c19Slot, hist int, tag string, s
 			// a valid register must be accepted and its header queries must succeed
 		}
 		if r.post && in.kind != "valid" && reg.segs != nil {
-			if ev := c19PostDecode(reg, d); ev != "" {
+			if ev, msg := c19PostDecode(reg, d); ev != "" {
 				st.events[ev]++
 				if ev == "post_decode_panic" || ev == "post_decode_hang" || ev == "post_decode_cycle" {
 					if st.events["sampled."+ev] < 3 {
 						st.events["sampled."+ev]++
-						st.trace = append(st.trace, fmt.Sprintf("# %s id=%s input=%x\n", ev, reg.id, d))
+						st.trace = append(st.trace, fmt.Sprintf("# %s (%s) id=%s input=%x\n", ev, msg, reg.id, d))
 					}
 				}
 			}
